@@ -29,7 +29,7 @@ VERIF = os.path.dirname(os.path.dirname(os.path.dirname(os.path.abspath(__file__
 
 OP_WEIGHTS = {"new": 2, "mutate": 30, "read": 12, "spawn": 12, "save": 8, "load": 7, "split": 12, "replay": 6,
               "drop": 3, "handoff": 1, "cleanroom": 1}
-FAULT_KINDS = ("open_enoent", "open_eacces", "open_enospc", "write_enospc", "write_eio", "read_eio", "close_eio", "crash")
+FAULT_KINDS = ("open_enoent", "open_eacces", "open_enospc", "write_enospc", "write_eio", "read_eio", "close_eio", "rename_eio", "crash")
 RTOL = 1e-9
 
 
@@ -106,6 +106,9 @@ class ModelsWorld(World):
         self._g0 = globalstate.snapshot()
 
     def close(self):
+        # which OS routes the code under test took to the simulated disk (beyond plain open/read/write)
+        for k, v in self.fs.os_calls.items():
+            self.probes["oscall_" + k] += v
         simfs._CURRENT["fs"] = None
 
     # -- bookkeeping ------------------------------------------------------------------------------
@@ -410,7 +413,7 @@ class ModelsWorld(World):
             if reading:
                 kinds = [k for k in cfg["fault_kinds"] if k.startswith("open") or k in ("read_eio", "close_eio")]
             else:
-                kinds = [k for k in cfg["fault_kinds"] if k.startswith("open") or k in ("write_enospc", "write_eio", "close_eio", "crash")]
+                kinds = [k for k in cfg["fault_kinds"] if k.startswith("open") or k in ("write_enospc", "write_eio", "close_eio", "rename_eio", "crash")]
             if kinds:
                 kind = flt.choice(sorted(kinds))
                 at = 0 if flt.random() < 0.5 else flt.randint(0, 6)
